@@ -240,7 +240,69 @@ def fam_f32(case):
             "sig": (tuple(series), thr)}
 
 
-FAMILIES = {"crafted": fam_crafted, "assigned": fam_assigned, "f32": fam_f32}
+def _long_series(n, pattern):
+    t = np.arange(n)
+    if pattern == "blocks":      # plateaus of 7: long lines and white gaps
+        return ((t // 7) % 3) * 0.5
+    if pattern == "sweep":       # slowly drifting: one very long diagonal band
+        return (t // 3) * 0.25
+    if pattern == "mix":
+        return ((t * 37) % 11) * 0.25
+    return np.zeros(n)           # "const": every line has maximal length
+
+
+def fam_long(case):
+    """Scale family: series far longer than the exhaustive matrices, so that
+    runs cross any internal block / integer-width boundary (lengths 300-700;
+    dyadic values, threshold between two realised distances)."""
+    n, pattern, thr, sparse, nnan = case
+    viol = []
+    x = _long_series(n, pattern).astype(float)
+    mv = [False] * n
+    kw = dict(metric="supremum", threshold=thr, sparse_rqa=bool(sparse))
+    if nnan:
+        for k in range(nnan):
+            mv[(k * 97 + 41) % n] = True
+        x = x.copy()
+        x[np.array(mv)] = np.nan
+        kw["missing_values"] = True
+    rp = _mk(x, **kw)
+    xs = np.array(x, dtype=np.float32).astype(float)
+    with np.errstate(invalid="ignore"):
+        R = (np.abs(xs[:, None] - xs[None, :]) < thr).astype(int)
+    if nnan:
+        R[np.array(mv), :] = 0
+        R[:, np.array(mv)] = 0
+    tag = "+".join((["seq"] if sparse else []) + (["mv"] if nnan else [])
+                   + ["long"])
+    if not sparse:
+        Rl = np.asarray(rp.recurrence_matrix())
+        if not np.array_equal(Rl, R):
+            viol.append(V("RecurrencePlot.recurrence_matrix:long:" + tag,
+                          "R differs from the thresholded distance matrix",
+                          int(np.sum(Rl != R)), 0))
+    hd, hv, hw = _hist_check(rp, R.tolist(), mv if nnan else None, tag, viol,
+                             white=(not sparse))
+    ev = 3
+    # derived measures for a few minimal lengths (from the library's own
+    # histograms)
+    for m in (1, 2, 5, n // 2):
+        for name, e in (("determinism", rqa.ratio_measure(hd, m)),
+                        ("average_diaglength", rqa.mean_length(hd, m)),
+                        ("laminarity", rqa.ratio_measure(hv, m)),
+                        ("trapping_time", rqa.mean_length(hv, m))):
+            ev += 1
+            got = getattr(rp, name)(m)
+            if not _close(got, e):
+                viol.append(V("RecurrencePlot.%s:value:%s" % (name, tag),
+                              "min length %d" % m, got, e))
+    return {"viol": viol, "evals": ev, "trivial": False,
+            "sig": (n, pattern, thr, sparse, nnan, rqa.max_length(hd),
+                    rqa.max_length(hv))}
+
+
+FAMILIES = {"crafted": fam_crafted, "assigned": fam_assigned, "f32": fam_f32,
+            "long": fam_long}
 
 
 def run(ctx):
@@ -282,6 +344,13 @@ def run(ctx):
              for s in itertools.product(F32_ALPHABET, repeat=L)
              for t in F32_THRESHOLDS]
     ctx.explore("f32", cases, desc="float32 boundary family")
+    cases = [[n, pat, thr, sp, nn]
+             for n in ((300, 520) if not thorough else (300, 520, 700))
+             for pat, thr in (("blocks", 0.25), ("sweep", 0.375),
+                              ("mix", 0.375), ("const", 0.5))
+             for sp in (0, 1) for nn in (0, 3)]
+    ctx.explore("long", cases, chunk=1, desc="series of 300-700 samples "
+                "(runs longer than any internal block or narrow integer)")
     ctx.notes.update({"crafted_nmax": nmax, "assigned_nmax": M})
     ctx.assumptions += [
         "numpy float64 arithmetic for the oracle formulas",
